@@ -3,6 +3,7 @@ import NixModel.Lemmas.C03Accept
 import NixModel.Lemmas.C03Uuid
 import NixModel.Lemmas.C03Handles
 import NixModel.Lemmas.C03Succeeds
+import NixModel.Lemmas.C03Property
 import NixModel.Generated.CreateShape
 import NixModel.Lemmas.C03ContShape
 
@@ -535,6 +536,39 @@ theorem legal_name_accepted_section_full {g : Graph} (hg : ReachableFreshX g) {p
       AcceptedAs g c.owner.key (if p = [] then "metadata" else "sections") name c g' := by
   obtain ⟨g', hres⟩ := hg.wf.createSection_ok hc hk (checkNameType_of hn hs ht) hnew hclash
   exact ⟨g', hres, legal_name_accepted_section hg hn hfresh hc hnew hres⟩
+
+/-- **properties** (`Section.create_property`, sections at any depth): an accepted call appends the property under its
+name, with a fresh id, addressable by position, name, id and entity object; delete-by-name restores the list; no other
+id changes -/
+theorem legal_name_accepted_property {g g' : Graph} (hg : ReachableFreshX g) {p : Path} {name : String} {c : Cont}
+    (hc : openCont g p "properties" = some c) (hfresh : ∀ m, g.nextId ≤ m → name ≠ idStr m)
+    (hnew : ∀ l ∈ contEntries g c, l.1 ≠ name) (hres : createProperty g p name = .ok g') :
+    AcceptedAs g c.owner.key "properties" name c g' := by
+  obtain ⟨o, k, hr, hk, hcr⟩ := hg.wf.createProperty_created hfresh hres
+  obtain ⟨o', hr', hci, ho, _, _, _⟩ := openCont_some hc
+  have hoo : o' = o := by rw [hr] at hr'; exact (Option.some.inj hr').symm
+  subst hoo
+  have hpl : isPlainLike c.info.flavour = true := by
+    have : containerInfo (okind g o'.key) "properties" = some { flavour := .plain, item := "property" } := by
+      rw [hg.wf.okind_of_kind (by rw [hk]; decide), hk]; rfl
+    rw [this] at hci
+    rw [← Option.some.inj hci]; rfl
+  exact acceptedAs_of_created hg.wf hc hpl (by rw [ho]; exact hcr) hfresh hnew
+
+/-- … and the call succeeds for every legal name (non-empty, no slash) that no property of the section carries
+(subsections of that name do not matter) -/
+theorem legal_name_accepted_property_full {g : Graph} (hg : ReachableFreshX g) {p : Path} {o : Loc} {name : String}
+    {c : Cont} (hr : resolve g rootLoc p = some o) (hk : kindOf g o.key = "section")
+    (hn : name ≠ "") (hs : hasSlash name = false) (hfresh : ∀ m, g.nextId ≤ m → name ≠ idStr m)
+    (hc : openCont g p "properties" = some c) (hnew : ∀ l ∈ contEntries g c, l.1 ≠ name) :
+    ∃ g', createProperty g p name = .ok g' ∧ AcceptedAs g c.owner.key "properties" name c g' := by
+  obtain ⟨o', hr', _, _, _, _, hnode⟩ := openCont_some hc
+  have hoo : o' = o := by rw [hr] at hr'; exact (Option.some.inj hr').symm
+  subst hoo
+  have hnew' : ∀ l ∈ cLinks g (g.child? o'.key "properties"), l.1 ≠ name := by
+    intro l hl; apply hnew; unfold contEntries; rw [hnode]; exact hl
+  obtain ⟨g', hres⟩ := hg.wf.createProperty_ok hr hk hn hs hnew'
+  exact ⟨g', hres, legal_name_accepted_property hg hc hfresh hnew hres⟩
 
 /-- **the kinds of one parent do not see each other** — a successful create call in one container
 (`create_data_frame`, any `create_*` of a block or source, `create_section`) leaves every other
